@@ -3,10 +3,11 @@ CONSTANTS
   KCh = {"K1"}
   Modes = {"insert", "append"}
   OwnsAllSet = {FALSE, TRUE}
-  Rich = FALSE
+  Rich = 0
   MaxLen = 3
   MaxEdits = 1
-  StartExtras = {{}, {"cali-a", "cali-old", "felix-old", "other"}}
+  EditInApply = FALSE
+  StartExtras = {{"cali-a", "cali-old", "felix-old", "other"}}
 INIT MInit
 NEXT MNext
 INVARIANTS TypeOK Witness Satisfiable ConvergedMeans
